@@ -107,7 +107,7 @@ def _rand_tree(rng, depth=0):
     e = W.Elem(rng.choice(names))
     for _ in range(rng.randint(0, 3)):
         kind = rng.choice(["str", "int", "hex", "bool", "ref", "dimen", "float", "str", "int", "attr", "fraction", "argb8", "rgb8", "argb4", "rgb4"])
-        v = {"str": lambda: rng.choice(["", "hello", "com.example.App", ".Main", "üñí", "a b", "x" * 40, "\U0001F600z", "\u65e5" * 50, "\xe9" * 100, "x" * 200,
+        v = {"str": lambda: rng.choice(["", "hello", "com.example.App", ".Main", "üñí", "a b", "x" * 40, "\U0001F600z", "\ufeffstarts with U+FEFF", "\u65e5" * 50, "\xe9" * 100, "x" * 200,
                                          "\u65e5" * 130]),
              "int": lambda: rng.choice([0, 1, -1 & 0xFFFFFFFF, 0x7FFFFFFF, 0x80000000, rng.randrange(1 << 32)]),
              "hex": lambda: rng.randrange(1 << 32), "bool": lambda: rng.random() < 0.5,
@@ -125,7 +125,9 @@ def _rand_tree(rng, depth=0):
             rid = known.get(nm) if (ns == W.ANDROID_NS and rng.random() < 0.5) else None   # (name, id) pairs of the framework
             e.attrs.append(W.Attr(nm, (kind, v), ns, rid))
     if rng.random() < 0.3:
-        e.text = rng.choice(["text", "  spaced ", "ünï", "<&>"])
+        e.text = rng.choice(["text", "  spaced ", "ünï", "<&>", "\ufeffbom", "\U0001F600"])
+    if depth > 0 and rng.random() < 0.25:
+        e.tail = rng.choice(["tail", " t ", "日本", "\U0001F600tail"])        # character data behind the element (mixed content)
     if depth < 3:
         for _ in range(rng.randint(0, 3 - depth)):
             e.children.append(_rand_tree(rng, depth + 1))
@@ -150,6 +152,8 @@ def _cmp(U, want, got, path):
     U.ensures("attribute names (with namespace URIs) and their typed values", ga == wa, path=path, got=ga, want=wa)
     if want.text is not None:
         U.ensures("text", (got.text or "") == want.text, path=path, got=got.text, want=want.text)
+    if getattr(want, "tail", None) is not None:
+        U.ensures("character data behind the element (tail)", (got.tail or "") == want.tail, path=path, got=got.tail, want=want.tail)
     kids = [c for c in got if isinstance(c.tag, str)]
     U.ensures("same number of child elements in order", len(kids) == len(want.children), path=path, got=[k.tag for k in kids])
     for i, (w, k) in enumerate(zip(want.children, kids)):
@@ -171,7 +175,9 @@ def generated_documents(U):
     if used_ex and len(nss) == 1:
         nss.append(("ex", "http://example.com/ns"))
     attr_size = rng.choice([20, 20, 24, 28])      # ResXMLTree_attrExt.attributeSize: attributes may carry trailing bytes
-    data = W.write(root, nss, utf8, attr_size)
+    mutf8 = utf8 and rng.random() < 0.5               # aapt2 writes modified UTF-8 (surrogate pairs) into UTF-8 pools
+    raw_values = rng.random() < 0.7                    # string attributes without the optional raw value
+    data = W.write(root, nss, utf8, attr_size, mutf8, raw_values)
     o = U.call(lambda: m.AXMLPrinter(data))
     U.ensures("parses", o.ok, exc=repr(o.exc)[:200], utf8=utf8)
     if not o.ok:
@@ -391,7 +397,8 @@ def _inv_read(spec, L, k):
     s, w, a = L["self"], spec.G["world"], spec.G["a"]
     end = s.buff.buf.length
     # a skip read that hits the end of the data leaves the stream at the end (the next word read then fails)
-    return And(s.buff.pos == Ite(w.POS(k) <= end, w.POS(k), end), _alen(s.m_attributes) == 5 * k,
+    # (or, for an attributeStart that points behind the data, beyond the end)
+    return And(Or(s.buff.pos == w.POS(k), And(w.POS(k) > end, s.buff.pos >= end)), _alen(s.m_attributes) == 5 * k,
                Implies(And(0 <= a, a < k), _skolem_clause(spec, s.m_attributes, None)))
 
 
@@ -454,7 +461,8 @@ def start_element_unbounded(U, f):
     U.assume(at_size >= 20)
     count = mem.byte(p0 + 28) | (mem.byte(p0 + 29) << 8)
     a = U.int("a", 0, 65535)
-    world = _Attrs(U, mem, p0 + 36, at_size)
+    at_start = mem.byte(p0 + 24) | (mem.byte(p0 + 25) << 8)         # ResXMLTree_attrExt.attributeStart: any value
+    world = _Attrs(U, mem, p0 + 16 + at_start, at_size)
     for sp in (ATTR_READ, ATTR_SHIFT):
         sp.G = {"U": U, "world": world, "a": a, "count": count, "fields": [f]}
     p = object.__new__(m.AXMLParser)
@@ -470,7 +478,7 @@ def start_element_unbounded(U, f):
     U.cover("the chunk is parsed")
     U.ensures("event START_TAG, attribute count as declared, five words per attribute",
               And(p.m_event == m.START_TAG, p.m_attribute_count == count, _alen(p.m_attributes) == 5 * count))
-    U.ensures("attribute a is read at attributeStart + a * attributeSize: namespace, name, raw value, data type (high byte of the "
+    U.ensures("attribute a is read at (start of attrExt) + attributeStart + a * attributeSize: namespace, name, raw value, data type (high byte of the "
               "typed-value word), data", Implies(a < count, _skolem_clause(ATTR_SHIFT, p.m_attributes, count)))
     U.ensures("the parser is positioned at the end of the chunk", p.buff.pos == p0 + size)
 
@@ -573,3 +581,35 @@ def chunk_loop_terminates(U):
         # has consumed at least one chunk header
         U.ensures("a step that reports START_TAG / END_TAG / TEXT leaves the stream at least 8 bytes further",
                   Or(p.m_event == m.END_DOCUMENT, p.buff.pos >= p0 + 8), event=p.m_event)
+
+
+class _SBIdx:
+    def __getitem__(self, i):
+        return ("string", i)
+
+
+@unit("C26", covers=[(AXML, "AXMLParser.getAttributeValue"), (AXML, "AXMLParser._get_attribute_offset")], samples=100,
+      note="the string of a TYPE_STRING attribute is the one its typed value (Res_value.data) indexes; the optional raw value only "
+           "when the typed value is 0xFFFFFFFF; every other type yields ''")
+def attribute_string_value(U):
+    m = U.mod(AXML)
+    p = object.__new__(m.AXMLParser)
+    p.m_event = m.START_TAG
+    words = [U.int("w%d" % i, 0, 0xFFFFFFFF) for i in range(10)]
+    vtype = U.int("type", 0, 255)
+    words[5 + 3] = vtype
+    p.m_attributes = list(words)
+    p.m_attribute_count = 2
+    p.sb = _SBIdx()
+    o = U.call(p.getAttributeValue, 1)
+    U.ensures("does not raise", o.ok, exc=repr(o.exc))
+    if not o.ok:
+        return
+    raw, data = words[5 + 2], words[5 + 4]
+    if vtype == 3:      # forks
+        if data == 0xFFFFFFFF:
+            U.ensures("without a typed string index the raw value's string is returned", And(o.value[0] == "string", Eq(o.value[1], raw)))
+        else:
+            U.ensures("the string indexed by the typed value is returned", And(o.value[0] == "string", Eq(o.value[1], data)))
+    else:
+        U.ensures("attributes of another type have no string value", o.value == "")
